@@ -710,6 +710,9 @@ pub fn generate(ctx: &mut Ctx) {
 // ---------------------------------------------------------------- runner + oracle
 
 pub fn run_op(ctx: &mut Ctx, op: &str) {
+    if ctx.hang_limit_reached() {
+        return;
+    }
     let mut it = op.split_whitespace();
     let bad = |ctx: &mut Ctx| {
         ctx.record(op.to_string(), "bad-op".into(), false);
